@@ -16,9 +16,19 @@ def src_hash(repo):
     return h.hexdigest()[:16]
 
 
-def dump(repo, work, features):
+def src_hash_derive(repo):
+    h = hashlib.sha256()
+    for root, _d, files in sorted(os.walk(os.path.join(repo, "rsactor-derive", "src"))):
+        for f in sorted(files):
+            h.update(open(os.path.join(root, f), "rb").read())
+    return h.hexdigest()[:8]
+
+
+def dump(repo, work, features, corpus_file=None):
     """-> (dump dir, overlay src dir, seconds, log).  Cached by a hash of /repo/src."""
     key = "%s_%s" % ("-".join(sorted(features)) or "default", src_hash(repo))
+    if corpus_file:
+        key += "_" + hashlib.sha256(open(corpus_file, "rb").read()).hexdigest()[:8] + "_" + src_hash_derive(repo)
     out = os.path.join(work, "mir", key)
     ov = os.path.join(work, "mir", "ov_" + key)
     if os.path.exists(os.path.join(out, ".complete")):
@@ -29,6 +39,8 @@ def dump(repo, work, features):
     # CARGO_INCREMENTAL=0: with incremental compilation rustc re-uses cached MIR and the passes
     # (and therefore the dumps) do not run for unchanged functions
     env = dict(os.environ, VERIF_REPO=repo, CARGO_NET_OFFLINE="true", CARGO_INCREMENTAL="0")
+    if corpus_file:
+        env["VERIF_CORPUS_FILE"] = corpus_file
     subprocess.run([os.path.join(V, "bin", "mk_overlay.sh"), ov], check=True, env=env, stdout=subprocess.PIPE, stderr=subprocess.STDOUT)
     # force rustc to run (an up-to-date crate would produce no dump)
     lib = os.path.join(ov, "src", "lib.rs")
